@@ -66,6 +66,7 @@ ASSUMPTIONS = [
     "reaches them without following a reference) and Python object identity of looked-up operations are not judged",
     "a well-formed operation reported as Err carrying its path is accepted (the property is a disjunction) and counted",
     "bare `12:30:00`-style scalars are YAML 1.1 base-60 integers; the property names dates only, so they are counted, not judged",
+    "distinct_nontrivial hashes at most 3000 judged cases per document (memory); further judged cases are counted in judged_cases_not_hashed",
 ]
 
 CONTAINERS = (("path", "path_parameters"), ("query", "query"), ("header", "headers"), ("cookie", "cookies"))
